@@ -39,6 +39,11 @@ TABLES = {
                   ('%', 12), ('{', 12), ('}', 12), ('~', 11), ('=', 7), ('^', 12), ('+', 6), (';', 3)],
                  ['a', '!', '<', '>', '\\', '|', '*', '?', '/', ' ', '\n', '%', '=', '~', '^', ';', '+']),
     'blank2': ([('.', 10), (';', 5), ('a', 10)], ['a', 'b', '.', ';', ' ', '\n', '\\', '%', '^', 'M']),
+    # histories of re-assignments: '*' is walked through all sixteen classes and ends as a letter, '+' and '/' come
+    # back to "other" from invalid / ignored, '!' becomes a second superscript character next to '^'
+    'reassign': ([('*', k) for k in range(16)] + [('*', 11), ('+', 15), ('+', 12), ('/', 9), ('/', 12), ('?', 0), ('?', 12),
+                                                   ('!', 7), ('|', 13), ('|', 14), ('|', 12)],
+                 ['a', '*', '+', '/', '?', '!', '^', '|', ' ', '\\', '\n', 'A']),
 }
 PREFIXES = ['a', 'a ', '\\a', 'a\n', '%', '^', '\\', '^^']
 
